@@ -268,10 +268,15 @@ def newest_start(ctx):
         def go(drv=drv, name=name):
             summ = {}
             for g in ctx.P.functions.values():
-                if g.cls is None and len(g.params) == 3 and "alpha" in g.params[1] and "beta" in g.params[2]:
+                if __import__("skverif.rules.c03", fromlist=["is_penaliser"]).is_penaliser(g):
                     summ[g.qualname] = _pen_summary
             ex, paths = generic_driver_run(ctx, drv, summ)
-            m = sym("min_segment_length")
+            # the driver's own parameter for the minimum length (the generic scenario names its symbols after them)
+            mins = [q for q in drv.params if "min" in q and "len" in q]
+            if len(mins) != 1:
+                ctx.undecided(rule, f"{name}|min-length", drv.loc(), "the driver's parameter for the minimum segment length cannot be told by its name", found=drv.params)
+                return
+            m = sym(mins[0])
             ok_any = False
             for p in returns(paths):
                 loops = main_loop(p, drv.qualname)
